@@ -5,6 +5,7 @@ import (
 	"fmt"
 	"os"
 	"runtime"
+	"strings"
 	"testing"
 	"time"
 
@@ -22,6 +23,8 @@ type Job struct {
 	Count   uint64   `json:"count"`
 	Tape    []uint32 `json:"tape,omitempty"`
 	Class   string   `json:"class,omitempty"`
+	MsgHas  string   `json:"msg_has,omitempty"` // shrink: the violation message must keep containing this
+	MaxRuns int      `json:"max_runs,omitempty"`
 	Out     string   `json:"out"`
 	WallS   float64  `json:"wall_s"` // wall-clock cap for this job
 	MaxFail int      `json:"max_fail"`
@@ -230,7 +233,7 @@ func shrink(t *testing.T, def *Def, job *Job, out *WorkerOut) {
 	test := func(tape []uint32) ([]uint32, bool) {
 		runs++
 		res := sim.Run(t, sim.NewReplayTape(tape), def.Cfg, def.Build(job.Tier))
-		if len(res.Violations) > 0 && res.Violations[0].Class == job.Class {
+		if len(res.Violations) > 0 && res.Violations[0].Class == job.Class && (job.MsgHas == "" || strings.Contains(res.Violations[0].Msg, job.MsgHas)) {
 			used := res.Tape
 			// the consumed tape may be shorter or longer than the candidate (zeros beyond)
 			for len(used) > 0 && used[len(used)-1] == 0 {
@@ -246,7 +249,11 @@ func shrink(t *testing.T, def *Def, job *Job, out *WorkerOut) {
 		out.ShrinkN = runs
 		return
 	}
-	budgetLeft := func() bool { return runs < 3000 && time.Now().Before(deadline) }
+	maxRuns := job.MaxRuns
+	if maxRuns == 0 {
+		maxRuns = 3000
+	}
+	budgetLeft := func() bool { return runs < maxRuns && time.Now().Before(deadline) }
 	improved := true
 	for improved && budgetLeft() {
 		improved = false
